@@ -90,7 +90,27 @@ func New(id, tier string) *Run {
 		outcomes: map[string]int64{}, Bounds: map[string]any{}, Extra: map[string]any{},
 		violations: map[string]*Violation{}, known: map[string]string{}, knownHit: map[string]int64{}}
 	r.loadKnown()
+	current = r
 	return r
+}
+
+var current *Run
+
+// Recover is deferred by every worker goroutine of the explorers: a panic that escapes the code under
+// test (or the harness) becomes a reported violation instead of killing the process without a verdict.
+func Recover() {
+	if e := recover(); e != nil {
+		buf := make([]byte, 6000)
+		buf = buf[:runtime.Stack(buf, false)]
+		msg := fmt.Sprintf("panic during exploration: %v", e)
+		if current != nil {
+			current.Cap("a worker stopped after a panic")
+			current.Violation("panic:"+fmt.Sprint(e), msg+"\n"+string(buf), map[string]string{"panic": fmt.Sprint(e)})
+			return
+		}
+		fmt.Fprintln(os.Stderr, msg)
+		os.Exit(2)
+	}
 }
 
 func (r *Run) Thorough() bool { return r.Tier == "thorough" }
@@ -371,7 +391,10 @@ func Parallel(n int, f func(i int)) {
 				if i >= n {
 					return
 				}
-				f(i)
+				func() {
+					defer Recover()
+					f(i)
+				}()
 			}
 		}()
 	}
